@@ -35,7 +35,7 @@ TMat == /\ l <= Len(Tr) /\ Ev.e = "Mat" /\ Step
         /\ A' = <<>> /\ fam' = Ev.class /\ cond' = Ev.cond /\ shape' = <<Ev.m, Ev.n>>
 
 TInv == /\ l <= Len(Tr) /\ Ev.e = "Inv" /\ Step /\ Keep
-        /\ Ev.r <= BoundCond(1000)
+        /\ Ev.r <= BoundCond(100)                        \* surveyed worst 4e-10 at cond 5e4 (pivoted Gauss-Jordan), 1e-11 (LAPACK)
 \* integer input with integer inverse (permutations, unimodular matrices): exact check with the model's integer product
 TInvInt == /\ l <= Len(Tr) /\ Ev.e = "InvInt" /\ Step /\ UNCHANGED <<fam, cond, shape>> /\ A' = Ev.A
            /\ MulI(Ev.A, Ev.inv) = IdI(Len(Ev.A))
@@ -47,7 +47,7 @@ TDetMul == /\ l <= Len(Tr) /\ Ev.e = "DetMul" /\ Step /\ Keep
            /\ Ev.r <= TolAlg
 TSolve == /\ l <= Len(Tr) /\ Ev.e = "Solve" /\ Step /\ Keep
           /\ Ev.rb <= TolAlg
-          /\ Ev.rf <= BoundCond(1000)
+          /\ Ev.rf <= BoundCond(100)                    \* forward error: surveyed worst 4e-11 at cond 1e5
 TOls == /\ l <= Len(Tr) /\ Ev.e = "Ols" /\ Step /\ Keep
         /\ Ev.r <= BoundCond2
 TPenrose == /\ l <= Len(Tr) /\ Ev.e = "Penrose" /\ Step /\ Keep
